@@ -28,3 +28,10 @@ Theorem gen_c16_put_index : forall size hk : N, (0 < size)%N ->
   = Some (Z.of_N (N.land hk (N.ones 63)), Z.of_N (N.land hk (N.ones 63) mod size)).
 Proof. exact tie_put_index. Qed.
 Print Assumptions gen_c16_put_index.
+
+(* qt_hash64 (src/ds/dictionary/hash.c -> Gen/Hash.v; proof in Gen/Tie_Hash.v): Dict.Model.hash64, for every 64-bit key.
+   The bytes of the union are little-endian (assumption stated in the generated header). *)
+From QV Require Import Gen.Hash Gen.Tie_Hash.
+Theorem gen_c16_hash64 : forall key : N, Gen.Hash.qt_hash64 (Z.of_N key) = Some (Z.of_N (hash64 key)).
+Proof. exact tie_hash64. Qed.
+Print Assumptions gen_c16_hash64.
